@@ -49,7 +49,9 @@ EXHAUSTIVE = {"quick": True, "thorough": True}
 
 PREFIXES = ["", "/api", "/apix", "/api/api", "/a"]
 PATHS = ["", "/", "/api", "/apix", "/api/", "/api/x", "/api/api", "//api", "api", "/ap", "/a", "/api/api/x",
-         "/apix/api", "/api//", "/API", "/a/api", "/api/apix"]
+         "/apix/api", "/api//", "/API", "/a/api", "/api/apix",
+         # characters that '.' / '$' / \w of a regular expression treat specially: a mount is a plain prefix test
+         "/api/\n", "/api/x\ny", "/api\n", "\n", "/api/\r\n/x", "/a/\u2028", "/api/.*", "/api/x\n"]
 ROOTS = [None, "", "/root"]
 
 HOST_PATTERNS = [r"example\.com", r".*\.example\.com", r"a|ab", r"(?i)x", r"", r".*", r"example.com",
@@ -159,7 +161,7 @@ def random_path(rng, tree):
         elif r < 0.85:
             s += rng.choice(SEGS)
         t = sub
-    s += rng.choice(["", "", "/", "x", "/x", "//", "/api", "/api/", "/\xe9", "/a/b/c"])
+    s += rng.choice(["", "", "/", "x", "/x", "//", "/api", "/api/", "/\xe9", "/a/b/c", "/\n", "/x\ny/z", "\n", "/x\n", "/\x00", "/\u2028x"])
     return s
 
 
